@@ -97,7 +97,26 @@ def run(check):
           t = lab[1]
           return unparse(t.left) == dest and dotted(t.comparators[0]) == 'self.destinations' and (
             (isinstance(t.ops[0], ast.In) and lab[0] == 'T') or (isinstance(t.ops[0], ast.NotIn) and lab[0] == 'F'))
-        if n in g.reach([g.entry], removed_edge=conf, normal_only=True):
+        syntactic_miss = n in g.reach([g.entry], removed_edge=conf, normal_only=True)
+        if syntactic_miss:
+          # by value: on every path to the yield, the yielded value was found `in self.destinations`
+          from ..paths import PathExec
+          from ..symeval import canon
+          px = PathExec(cx, gd, unroll=1, follow_exceptions=False)
+          CONF = ('attr', ('param', gd.params[0]), 'destinations')
+          all_ok, seen = True, False
+          for hit in px.run({n}):
+            seen = True
+            yt = canon(hit.term(y.value, px))
+            found = any(pol == 'T' and isinstance(t, tuple) and t[0] == 'in' and canon(t[1]) == yt and canon(t[2]) == CONF
+                        for pol, t, a_, n_ in hit.conds if pol in ('T', 'F')) or \
+              any(pol == 'F' and isinstance(t, tuple) and t[0] == 'notin' and canon(t[1]) == yt and canon(t[2]) == CONF
+                  for pol, t, a_, n_ in hit.conds if pol in ('T', 'F'))
+            if not found:
+              all_ok = False
+          if seen and all_ok and not px.truncated:
+            syntactic_miss = False
+        if syntactic_miss:
           r_c.violate('unconfigured destination returned', gd, y, '`%s` can be yielded without having been found in self.destinations'
                       % dest)
         else:
